@@ -687,6 +687,23 @@ pub fn run(rep: &mut Report) {
     rep.bound("parse_back_formats", pf.len() as u64);
     let utc: Vec<i128> = epochs_in(Some(TimeScale::UTC)).iter().step_by(3).map(|(_, c)| *c).chain([super::c08::expected_count(days1900(2017, 1, 7), 86_390 * NS_S, TimeScale::UTC), super::c08::expected_count(days1900(2024, 2, 29), 3661 * NS_S + 5, TimeScale::UTC)]).collect();
     let nu = utc.len() as u64;
+    // order independence (depth-2 operation sequences on one thread): rendering with the nine constants, rendering with
+    // offsets and parse-back with six formats, of six epochs, in every order (a Formatter / Format that keeps state)
+    {
+        let oe: Vec<(TimeScale, i128)> = eps.iter().copied().step_by(23).take(6).collect();
+        let of = ["%Y-%m-%dT%H:%M:%S.%f", "%a, %d %b %Y %H:%M:%S", "%Y-%j %H:%M:%S.%f", "%d %B %Y %H:%M:%S", "%H:%M:%S %d-%m-%Y", "%Y-%m-%dT%H:%M:%S.%f%z"];
+        crate::engine::order_pairs(rep, "c19.order", 9 * 6 + 6 * 6 + 12, |i, out| {
+            if i < 54 {
+                let (ts, c) = oe[(i % 6) as usize];
+                j_consts(i / 6, c, ts, out)
+            } else if i < 90 {
+                let j = i - 54;
+                j_parse_back(of[(j / 6) as usize], utc[((j % 6) * 7 % nu) as usize], out)
+            } else {
+                j_offset([-719i128, -30, -1, 0, 1, 330][((i - 90) % 6) as usize], oc[((i - 90) / 6 % 3) as usize], out)
+            }
+        });
+    }
     sweep(rep, "c19.parse_back", pf.len() as u64 * nu, |i, out| j_parse_back(&pf[(i / nu) as usize], utc[(i % nu) as usize], out));
     // sub-second variety: the lattice above carries few nanosecond patterns; every format family with %f is driven over
     // a spread of 1 500 (time of day, nanosecond) pairs on three days - a float intermediate in one parser branch shows
